@@ -2,10 +2,6 @@ import SoxrModel.Conv.LemmasDither
 /-! `_soxr_interleave(_f)` as a whole: integer outputs against the per-sample specification, the seed, the index maps. -/
 set_option exponentiation.threshold 4096
 namespace Soxr.Conv
-
-/-! ## the seed -/
-
-/-- `f` applied `n` times. -/
 def iter {α : Type} (f : α → α) : Nat → α → α
   | 0, a => a
   | n + 1, a => iter f n (f a)
@@ -13,23 +9,31 @@ def iter {α : Type} (f : α → α) : Nat → α → α
 theorem vars_dith (c : Cfg) (hd : c.dith = true) (seed : Seed) : (vars c seed).2 = lcg (lcg seed) := by
   simp [vars, hd, ditherVars]
 
+theorem blockOperands_succ (c : Cfg) (k : Nat) (xs : List Val) (seed : Seed) :
+    (blockOperands c (k + 1) xs seed).2.2 = (blockOperands c k (xs.drop Gen.unroll) (vars c seed).2).2.2 := by
+  rw [blockOperands]
+
 theorem blockOperands_seed (c : Cfg) (hd : c.dith = true) (k : Nat) (xs : List Val) (seed : Seed) :
     (blockOperands c k xs seed).2.2 = iter (fun s => lcg (lcg s)) k seed := by
   induction k generalizing xs seed with
   | zero => rfl
-  | succ k ih => simp only [blockOperands, iter, ih, vars_dith c hd]
+  | succ k ih => rw [blockOperands_succ, ih, vars_dith c hd, iter]
+
+theorem iter_succ_out {α : Type} (f : α → α) (k : Nat) (a : α) : iter f (k + 1) a = f (iter f k a) := by
+  induction k generalizing a with
+  | zero => rfl
+  | succ k ih => exact ih (f a)
+
+theorem kernelOperands_eq (c : Cfg) (xs : List Val) (seed : Seed) :
+    (kernelOperands c xs seed).2 = (vars c (blockOperands c (numBlocks xs.length) xs seed).2.2).2 := rfl
 
 /-- **the dithered kernel advances the seed by exactly two LCG steps per unrolled block plus two for the tail**
     (also when the tail, or the whole call, is empty). -/
 theorem kernelOperands_seed (c : Cfg) (hd : c.dith = true) (xs : List Val) (seed : Seed) :
     (kernelOperands c xs seed).2 = iter (fun s => lcg (lcg s)) (numBlocks xs.length + 1) seed := by
-  have h : ∀ k s, iter (fun s => lcg (lcg s)) (k + 1) s = lcg (lcg (iter (fun s => lcg (lcg s)) k s)) := by
-    intro k
-    induction k with
-    | zero => intro s; rfl
-    | succ k ih => intro s; exact ih (lcg (lcg s))
-  unfold kernelOperands
-  simp only [vars_dith c hd, blockOperands_seed c hd, h]
+  rw [kernelOperands_eq]
+  generalize numBlocks xs.length = k
+  rw [vars_dith c hd, blockOperands_seed c hd, iter_succ_out]
 
 /-! ## index maps -/
 
@@ -100,67 +104,64 @@ theorem refClips_map (mx : Int) (f : Nat → Val) (c : List Nat) :
     clear on entry: for every engine precision, channel count, length and input the output is the per-sample reference in
     interleaved order, the clip count is exactly the number of saturated samples, the seed is not touched, the flag is
     clear again — whichever kernel variant (`LSX_RINT_CLIP` for one channel, `LSX_RINT_CLIP_2` otherwise) runs. -/
+theorem interleaveInt_nodither (eng : Fmt) (t : DType) (chans : List (List Nat)) (n : Nat)
+    (hlen : ∀ c ∈ chans, c.length = n) (dith : Bool) (hd : dith = false ∨ t ≠ .i16) (seed : Seed) :
+    interleaveInt eng t chans n dith seed false =
+      ⟨(specInt eng t chans n).1, (specInt eng t chans n).2, seed, false⟩ := by
+  have hc : (dith && decide (t = .i16)) = false := by
+    rcases hd with h | h
+    · simp [h]
+    · simp [h]
+  have hmx := rintMax_nonneg t
+  unfold interleaveInt
+  generalize hcfg : (⟨rintMax t, dith && decide (t = .i16)⟩ : Cfg) = c
+  have hcd : c.dith = false := by rw [← hcfg]; exact hc
+  have hcm : 0 ≤ c.mx := by rw [← hcfg]; exact hmx
+  have hcx : c.mx = rintMax t := by rw [← hcfg]
+  cases chans with
+  | nil =>
+    simp only [List.map_nil, lsxRintClip2, specInt]
+    simp
+  | cons c0 rest =>
+    cases rest with
+    | nil =>
+      simp only [List.map_cons, List.map_nil]
+      rw [lsxRintClip_clear c hcm, kernelOperands_nodith c hcd]
+      have hn : c0.length = n := hlen c0 (by simp)
+      simp only [specInt, List.map_cons, List.map_nil, List.sum_cons, List.sum_nil, Nat.add_zero, Nat.zero_add]
+      have e1 : refOut c.mx (c0.map eng.decode) = c0.map fun b => (convSample (rintMax t) (eng.decode b)).1 := by
+        rw [hcx]; exact refOut_map _ _ _
+      have e2 : refClips c.mx (c0.map eng.decode) = c0.countP fun b => (convSample (rintMax t) (eng.decode b)).2 := by
+        rw [hcx]; exact refClips_map _ _ _
+      rw [e1, e2]
+      have e3 := interleaveLists_single (c0.map fun b => (convSample (rintMax t) (eng.decode b)).1)
+      rw [List.length_map, hn] at e3
+      rw [e3]
+    | cons c1 rest =>
+      simp only [List.map_cons]
+      rw [lsxRintClip2_clear c hcm, kernelOperands2_nodith c hcd]
+      simp only [specInt, List.map_cons, List.map_map, Nat.zero_add]
+      have e1 : ∀ l : List Nat, refOut c.mx (l.map eng.decode) = l.map fun b => (convSample (rintMax t) (eng.decode b)).1 := by
+        intro l; rw [hcx]; exact refOut_map _ _ _
+      have e2 : ∀ l : List Nat, refClips c.mx (l.map eng.decode) = l.countP fun b => (convSample (rintMax t) (eng.decode b)).2 := by
+        intro l; rw [hcx]; exact refClips_map _ _ _
+      simp only [e1, e2, Function.comp_def]
+
 theorem interleave_int_nodither (eng : Fmt) (t : DType) (ht : t = .i32 ∨ t = .i16) (chans : List (List Nat)) (n : Nat)
     (hlen : ∀ c ∈ chans, c.length = n) (dith : Bool) (hd : dith = false ∨ t = .i32) (seed : Seed) :
     let r := interleave eng t chans n dith seed false
     r.out = (specInt eng t chans n).1 ∧ r.clips = (specInt eng t chans n).2 ∧ r.seed = seed ∧ r.flag = false := by
-  have hc : (dith && decide (t = .i16)) = false := by
+  have hd' : dith = false ∨ t ≠ .i16 := by
     rcases hd with h | h
-    · simp [h]
-    · subst h; simp
-  have hmx := rintMax_nonneg t
-  have key : ∀ (vals : List (List Val)), vals = chans.map (fun ch => ch.map eng.decode) →
-      let c : Cfg := ⟨rintMax t, dith && decide (t = .i16)⟩
-      (match vals with
-        | [xs] =>
-          let (os, seed', st) := lsxRintClip c xs seed ⟨false, 0⟩
-          (⟨os.map (ofSigned t.bits), st.clips, seed', st.flag⟩ : IlResult)
-        | _ =>
-          let (oss, seed', st) := lsxRintClip2 c vals seed ⟨false, 0⟩
-          ⟨(interleaveLists oss n).map (ofSigned t.bits), st.clips, seed', st.flag⟩) =
-      ⟨(specInt eng t chans n).1, (specInt eng t chans n).2, seed, false⟩ := by
-    intro vals hv c
-    have hcd : c.dith = false := hc
-    have hcm : 0 ≤ c.mx := hmx
-    cases chans with
-    | nil =>
-      subst hv
-      simp only [List.map_nil, lsxRintClip2, specInt]
-      simp
-    | cons c0 rest =>
-      cases rest with
-      | nil =>
-        subst hv
-        simp only [List.map_cons, List.map_nil]
-        rw [lsxRintClip_clear c hcm, kernelOperands_nodith c hcd]
-        have hn : c0.length = n := hlen c0 (by simp)
-        simp only [specInt, List.map_cons, List.map_nil, List.sum_cons, List.sum_nil, Nat.add_zero, Nat.zero_add]
-        have e1 : refOut c.mx (c0.map eng.decode) = c0.map fun b => (convSample (rintMax t) (eng.decode b)).1 :=
-          refOut_map _ _ _
-        have e2 : refClips c.mx (c0.map eng.decode) = c0.countP fun b => (convSample (rintMax t) (eng.decode b)).2 :=
-          refClips_map _ _ _
-        rw [e1, e2]
-        have e3 := interleaveLists_single (c0.map fun b => (convSample (rintMax t) (eng.decode b)).1)
-        rw [List.length_map, hn] at e3
-        rw [e3]
-      | cons c1 rest =>
-        subst hv
-        simp only [List.map_cons]
-        rw [lsxRintClip2_clear c hcm, kernelOperands2_nodith c hcd]
-        simp only [specInt, List.map_cons, List.map_map, Nat.zero_add]
-        have e1 : ∀ l : List Nat, refOut c.mx (l.map eng.decode) = l.map fun b => (convSample (rintMax t) (eng.decode b)).1 :=
-          fun l => refOut_map _ _ _
-        have e2 : ∀ l : List Nat, refClips c.mx (l.map eng.decode) = l.countP fun b => (convSample (rintMax t) (eng.decode b)).2 :=
-          fun l => refClips_map _ _ _
-        simp only [e1, e2, Function.comp_def]
-  rcases ht with h | h <;> subst h
-  · have := key _ rfl
-    simp only [interleave]
-    rw [this]
-    simp
-  · have := key _ rfl
-    simp only [interleave]
-    rw [this]
-    simp
+    · exact Or.inl h
+    · exact Or.inr (by rw [h]; decide)
+  have := interleaveInt_nodither eng t chans n hlen dith hd' seed
+  have e : interleave eng t chans n dith seed false = interleaveInt eng t chans n dith seed false := by
+    rcases ht with h | h <;> subst h <;> rfl
+  intro r
+  show (interleave eng t chans n dith seed false).out = _ ∧ (interleave eng t chans n dith seed false).clips = _ ∧
+    (interleave eng t chans n dith seed false).seed = _ ∧ (interleave eng t chans n dith seed false).flag = _
+  rw [e, this]
+  exact ⟨rfl, rfl, rfl, rfl⟩
 
 end Soxr.Conv
